@@ -11,10 +11,14 @@ import MptModel.Lemmas.FlatTree
 namespace Mpt.C09
 open Mpt Mpt.Parse Mpt.Render Mpt.Conf
 
-/-- parse a text in the format of `style` into an empty target; `none` = the parser reports an error -/
-def parseTree (style : Style) (text : List UInt8) : Option Forest :=
-  if (parseNode [] style.desc 0xff 0xff (-2) text).code < 0 then none
-  else some (parseNode [] style.desc 0xff 0xff (-2) text).children
+/-- parse a text in the format of `style` into an empty target under the name restriction words `sect`
+    (section names) and `opt` (option names); `none` = the parser reports an error -/
+def parseTreeF (style : Style) (sect opt : Nat) (text : List UInt8) : Option Forest :=
+  if (parseNode [] style.desc sect opt (-2) text).code < 0 then none
+  else some (parseNode [] style.desc sect opt (-2) text).children
+
+/-- … with all name flags set -/
+def parseTree (style : Style) (text : List UInt8) : Option Forest := parseTreeF style 0xff 0xff text
 
 /-- full statement: every admissible forest, written in any style with any valid decoration, is read
     back as its normal form -/
@@ -27,41 +31,63 @@ def decor_invariant_statement : Prop :=
   ∀ (style : Style) (d : Decor) (f : Forest), d.ok → admissible style f = true →
     parseTree style (render style d f) = parseTree style (render style noDecor f)
 
-/-- **Round trip, every style**: every admissible forest — brace style: any depth, any fan-out; flat
-    styles: options and one level of sections; in all styles duplicate names, empty sections and empty
-    values, values of any length, plain or needing quotes (blanks at the ends, `#`, quotes, backslashes,
-    line feeds, bytes ≥ 0x80) — written with ANY valid decoration (blank and comment lines,
-    indentation, blanks around `=` and in front of `{`, trailing blanks and trailing comments, comments
-    glued directly to a section name / brace, chosen per line) is read back by `mpt_parse_node` as exactly its normal form: same nesting, same order,
-    same names, same values byte for byte. -/
-theorem roundtrip (style : Style) (d : Decor) (hd : d.ok) (f : Forest) (ha : admissible style f = true) :
-    parseTree style (render style d f) = some (norm f) := by
+/-- **Round trip, every style, every name restriction**: every admissible forest — nested styles (brace,
+    `{x}`): any depth, any fan-out; flat styles: options and one level of sections; in all styles duplicate
+    names, empty sections (written as `name=` or in section syntax) and empty values, values of any length,
+    plain or needing quotes (blanks at the ends, `#`, quotes, backslashes, line feeds, bytes ≥ 0x80), names of
+    any bytes but white space, `#`, `=`, `.` and the section delimiters — whose names are permitted by the
+    name restriction words `sect` / `opt` (`forestFits`), written with ANY valid decoration (blank and comment
+    lines, indentation, blanks — blank, tab, vertical tab, form feed, carriage return — around `=` and in
+    front of `{`, trailing blanks and trailing comments, comments glued directly to a section name / brace,
+    chosen per line; blank and comment lines behind the last element and a last line without line feed that
+    holds blanks or a comment) is read back by `mpt_parse_node` with these restriction words as exactly its
+    normal form: same nesting, same order, same names, same values byte for byte. -/
+theorem roundtrip_flags (style : Style) (sect opt : Nat) (d : Decor) (hd : d.ok) (f : Forest)
+    (ha : admissible style f = true) (hfit : forestFits sect opt f = true) :
+    parseTreeF style sect opt (render style d f) = some (norm f) := by
   unfold admissible at ha
   simp only [Bool.and_eq_true] at ha
   obtain ⟨hok, hshape⟩ := ha
-  have key : ∀ (text : List UInt8), (parseNode [] style.desc 0xff 0xff (-2) text).code = 0 →
-      (parseNode [] style.desc 0xff 0xff (-2) text).children = norm f → parseTree style text = some (norm f) := by
+  have key : ∀ (text : List UInt8), (parseNode [] style.desc sect opt (-2) text).code = 0 →
+      (parseNode [] style.desc sect opt (-2) text).children = norm f → parseTreeF style sect opt text = some (norm f) := by
     intro text hc hch
-    unfold parseTree
+    unfold parseTreeF
     rw [hc, hch]
     rfl
   obtain ⟨b, hb⟩ := visSkip_endText [] (d (bodyLines style f)) rfl (hd _)
   simp only [List.nil_append] at hb
   cases style with
   | brace =>
-    obtain ⟨hc, hch⟩ := parseNode_brace d hd f hok _ b hb
+    obtain ⟨hc, hch⟩ := parseNode_brace sect opt d hd f hok hfit _ b hb
     exact key _ hc hch
   | sep =>
-    obtain ⟨hc, hch⟩ := parseNode_flat sectStyle_Sep (Style.desc .sep) 32 cfgS_desc (by decide) rfl d hd f hshape hok
-      _ b hb
+    obtain ⟨hc, hch⟩ := parseNode_flat (sectStyle_Sep (fs := sect) (fo := opt)) (Style.desc .sep) 32 sect opt cfgS_desc
+      (by decide) rfl d hd f hshape hok hfit _ b hb
     exact key _ hc hch
   | bar =>
-    obtain ⟨hc, hch⟩ := parseNode_flat sectStyle_Bar (Style.desc .bar) 120 cfgBar_desc (by decide) rfl d hd f hshape hok
-      _ b hb
+    obtain ⟨hc, hch⟩ := parseNode_flat (sectStyle_Bar (fs := sect) (fo := opt)) (Style.desc .bar) 120 sect opt cfgBar_desc
+      (by decide) rfl d hd f hshape hok hfit _ b hb
     exact key _ hc hch
   | enc =>
-    obtain ⟨hc, hch⟩ := parseNode_enc d hd f hok _ b hb
+    obtain ⟨hc, hch⟩ := parseNode_enc sect opt d hd f hok hfit _ b hb
     exact key _ hc hch
+
+/-- with all flags set every name is permitted -/
+theorem forestFits_all (f : Forest) : forestFits 0xff 0xff f = true := by
+  refine @Tree.rec_1 (fun t => treeFits 0xff 0xff t = true) (fun f => forestFits 0xff 0xff f = true) ?_ rfl ?_ f
+  · intro n v cs ih
+    unfold treeFits
+    split
+    · simp [nameFits_all]
+    · simp [nameFits_all, ih]
+  · intro t ts iht ihts
+    simp [forestFits, iht, ihts]
+
+/-- **Round trip, every style** (all name flags set, the setting of the correspondence run): see
+    `roundtrip_flags` -/
+theorem roundtrip (style : Style) (d : Decor) (hd : d.ok) (f : Forest) (ha : admissible style f = true) :
+    parseTree style (render style d f) = some (norm f) :=
+  roundtrip_flags style 0xff 0xff d hd f ha (forestFits_all f)
 
 /-- the full statement holds -/
 theorem roundtrip_holds : roundtrip_statement := fun style d f hd ha => roundtrip style d hd f ha
@@ -79,21 +105,23 @@ theorem decor_invariant_holds : decor_invariant_statement :=
 
 /-! ### reading again through one parser object (`mpt::parser::read`) -/
 
-/-- format family and configuration `mpt::config_parser` uses for a style (name flags all set) -/
-def styleCfg : Style → Kind × Cfg
-  | .brace => (.pre, cfgB)
-  | .sep => (.sep, cfgS)
-  | .bar => (.enc, cfgBar)
-  | .enc => (.enc, cfgE)
+/-- format family and configuration `mpt::config_parser` uses for a style with the name restriction words
+    it was constructed with -/
+def styleCfg (sect opt : Nat) : Style → Kind × Cfg
+  | .brace => (.pre, cfgB sect opt)
+  | .sep => (.sep, cfgS sect opt)
+  | .bar => (.enc, cfgBar sect opt)
+  | .enc => (.enc, cfgE sect opt)
 
 /-- **Every read from the start of a text delivers the forest**: `parser::read` on the text of an
     admissible forest (any style, any valid decoration) succeeds and leaves exactly the normal form in
     the target — whatever the previous run left in the parser context (`curr`) and whatever the target
     held before.  (open/read, reset/read, … on one parser object.) -/
-theorem roundtrip_reread (style : Style) (d : Decor) (hd : d.ok) (f : Forest) (ha : admissible style f = true)
+theorem roundtrip_reread (style : Style) (sect opt : Nat) (d : Decor) (hd : d.ok) (f : Forest)
+    (ha : admissible style f = true) (hfit : forestFits sect opt f = true)
     (curr : Nat) (target : Forest) :
-    (parserRead (styleCfg style).1 (styleCfg style).2 curr target (render style d f)).1.code = 0
-    ∧ (parserRead (styleCfg style).1 (styleCfg style).2 curr target (render style d f)).2 = norm f := by
+    (parserRead (styleCfg sect opt style).1 (styleCfg sect opt style).2 curr target (render style d f)).1.code = 0
+    ∧ (parserRead (styleCfg sect opt style).1 (styleCfg sect opt style).2 curr target (render style d f)).2 = norm f := by
   unfold admissible at ha
   simp only [Bool.and_eq_true] at ha
   obtain ⟨hok, hshape⟩ := ha
@@ -103,23 +131,23 @@ theorem roundtrip_reread (style : Style) (d : Decor) (hd : d.ok) (f : Forest) (h
   unfold parserRead
   cases style with
   | brace =>
-    obtain ⟨hc, hf⟩ := loop_brace d hd f hok { curr := curr } hclean rfl _ b hb
+    obtain ⟨hc, hf⟩ := loop_brace sect opt d hd f hok hfit { curr := curr } hclean rfl _ b hb
     simp only [styleCfg, render, renderBody, hc, hf]
     simp
   | sep =>
-    obtain ⟨hc, hf⟩ := flat_claim sectStyle_Sep d hd f 0 ({} : Build) Flag.section_ { curr := curr }
-      { rest := renderFlat d [91] [93] 0 f ++ endText (d (bodyLines .sep f)) } [] _ true b hshape hok hb
+    obtain ⟨hc, hf⟩ := flat_claim (sectStyle_Sep (fs := sect) (fo := opt)) d hd f 0 ({} : Build) Flag.section_ { curr := curr }
+      { rest := renderFlat d [91] [93] 0 f ++ endText (d (bodyLines .sep f)) } [] _ true b hshape hok hfit hb
       ⟨hclean, rfl, rfl, by simp⟩ (by simp [Mode, Flag.section_, Flag.sectEnd]) (Or.inl rfl)
     simp only [styleCfg, render, renderBody, hc, hf]
     simp
   | bar =>
-    obtain ⟨hc, hf⟩ := flat_claim sectStyle_Bar d hd f 0 ({} : Build) Flag.section_ { curr := curr }
-      { rest := renderFlat d [124] [] 0 f ++ endText (d (bodyLines .bar f)) } [] _ true b hshape hok hb
+    obtain ⟨hc, hf⟩ := flat_claim (sectStyle_Bar (fs := sect) (fo := opt)) d hd f 0 ({} : Build) Flag.section_ { curr := curr }
+      { rest := renderFlat d [124] [] 0 f ++ endText (d (bodyLines .bar f)) } [] _ true b hshape hok hfit hb
       ⟨hclean, rfl, rfl, by simp⟩ (by simp [Mode, Flag.section_, Flag.sectEnd]) (Or.inl rfl)
     simp only [styleCfg, render, renderBody, hc, hf]
     simp
   | enc =>
-    obtain ⟨hc, hf⟩ := loop_enc d hd f hok { curr := curr } hclean rfl _ b hb
+    obtain ⟨hc, hf⟩ := loop_enc sect opt d hd f hok hfit { curr := curr } hclean rfl _ b hb
     simp only [styleCfg, render, renderBody, hc, hf]
     simp
 
@@ -266,6 +294,14 @@ example : nameOk (str "\"a'\\+b~") = true ∧ nameOk [1, 0x80, 0xff, 127] = true
 example : (parseTree .brace (render .brace (decorOf 2) [.node (str "\"a'\\+b~") (some (str "v")) [],
       .node [1, 0x80, 0xff, 127] none [.node (str "$") none []]])).map (flat 0)
     = some [(0, str "\"a'\\+b~", some (str "v")), (0, [1, 0x80, 0xff, 127], none), (1, str "$", none)] := by
+  decide +kernel
+/-- name restriction words: `s2` and `k-1` fit (digits behind the first character; specials in option names only) … -/
+example : forestFits 0x2 0x6 [.node (str "s2") none [.node (str "k-1") (some (str "v")) []]] = true := by decide +kernel
+example : (parseTreeF .brace 0x2 0x6 (render .brace (decorOf 2) [.node (str "s2") none [.node (str "k-1") (some (str "v")) []]])).map
+    (flat 0) = some [(0, str "s2", none), (1, str "k-1", some (str "v"))] := by decide +kernel
+/-- … a name the word does not permit makes the parse fail (so `forestFits` is needed) -/
+example : forestFits 0x2 0x2 [.node (str "k-1") (some (str "v")) []] = false
+    ∧ parseTreeF .brace 0x2 0x2 (render .brace noDecor [.node (str "k-1") (some (str "v")) []]) = none := by
   decide +kernel
 end examples
 
